@@ -210,6 +210,10 @@ def run(ctx):
     for c in orch_configs(ctx.tier):
         run_orch(ctx, c)
     run_poser(ctx)
+    # direction B: recorded random behaviours (gating, run / mpe flags, registry order, save / load) against TraceSetup.tla
+    from . import trace_setup
+
+    trace_setup.run(ctx, "C15")
     ctx.exhaustive = True
 
 
